@@ -434,3 +434,100 @@ func ZZC02Format() {
 }
 
 func init() { ZZHarnesses["ZZC02Format"] = ZZC02Format }
+
+func c02Hex(c byte) bool {
+	return ('0' <= c && c <= '9') || ('a' <= c && c <= 'f') || ('A' <= c && c <= 'F')
+}
+
+// c02RefUUID: the four accepted spellings of a UUID (reference grammar).
+func c02RefUUID(b []byte) bool {
+	switch len(b) {
+	case 36:
+	case 45:
+		pre := "urn:uuid:"
+		for i := 0; i < 9; i++ {
+			c := b[i]
+			if 'A' <= c && c <= 'Z' {
+				c += 'a' - 'A'
+			}
+			if c != pre[i] {
+				return false
+			}
+		}
+		b = b[9:]
+	case 38:
+		if b[0] != '{' || b[37] != '}' {
+			return false
+		}
+		b = b[1:37]
+	case 32:
+		for _, c := range b {
+			if !c02Hex(c) {
+				return false
+			}
+		}
+		return true
+	default:
+		return false
+	}
+	for i := 0; i < 36; i++ {
+		if i == 8 || i == 13 || i == 18 || i == 23 {
+			if b[i] != '-' {
+				return false
+			}
+		} else if !c02Hex(b[i]) {
+			return false
+		}
+	}
+	return true
+}
+
+// ZZC02UUID: "..." // {type: "uuid"} against documents in each of the four
+// spellings with two symbolic bytes at chosen positions (hex digit, dash, prefix, brace).
+func ZZC02UUID() {
+	base := "550e8400-e29b-41d4-a716-44665544000f"
+	s := jschema.New("s", `"`+base+`" // {type: "uuid"}`)
+	v.Assert(s.Check() == nil, "C02/uuid-schema-rejected")
+	var text []byte
+	var cand []int
+	switch v.Choose(0, 3) {
+	case 0:
+		text = bs(base)
+		cand = []int{0, 7, 8, 9, 13, 23, 24, 35}
+	case 1:
+		text = bs("urn:uuid:" + base)
+		cand = []int{0, 3, 8, 9, 17, 44}
+	case 2:
+		text = bs("{" + base + "}")
+		cand = []int{0, 1, 9, 36, 37}
+	case 3:
+		for i := 0; i < len(base); i++ {
+			if base[i] != '-' {
+				text = append(text, base[i])
+			}
+		}
+		cand = []int{0, 1, 16, 31}
+	}
+	p1 := cand[v.Choose(0, len(cand)-1)]
+	c := v.Byte()
+	v.Assume(c >= 0x20 && c < 0x7f && c != '"' && c != '\\')
+	text[p1] = c
+	if v.Choose(0, 1) == 1 {
+		p2 := cand[v.Choose(0, len(cand)-1)]
+		c2 := v.Byte()
+		v.Assume(c2 >= 0x20 && c2 < 0x7f && c2 != '"' && c2 != '\\')
+		text[p2] = c2
+	}
+	doc := cat(bs(`"`), text, bs(`"`))
+	v.Observe("doc", doc)
+	verr := s.Validate(json.New("d", doc))
+	want := c02RefUUID(text)
+	if want {
+		v.Reach("C02/uuid-accept")
+	} else {
+		v.Reach("C02/uuid-reject")
+	}
+	v.Assert((verr == nil) == want, "C02/uuid-verdict")
+}
+
+func init() { ZZHarnesses["ZZC02UUID"] = ZZC02UUID }
